@@ -2,11 +2,36 @@
 import random, json, os, glob, itertools, re
 from fractions import Fraction
 import common
-from common import zlit, slit
+from common import zlit
 
 HDR = ('From Coq Require Import ZArith QArith List Bool String.\nImport ListNotations.\n'
        'Require Import WV.model.C07Tok WV.model.C07Decl WV.model.C07Expand WV.model.C07Full '
        'WV.model.C07Var WV.model.C07Units.\nOpen Scope string_scope.\nOpen Scope Z_scope.\n')
+
+
+class Interner:
+    """string literals are costly for coqc (10 nodes per character): each distinct string is defined once in the
+    preamble of the cases files and referred to by name"""
+    def __init__(self):
+        self.ids = {}
+
+    def __call__(self, text):
+        if text not in self.ids:
+            self.ids[text] = 'str%d' % len(self.ids)
+        return self.ids[text]
+
+    def reset(self):
+        self.ids = {}
+
+    def preamble(self):
+        return ''.join('Definition %s := %s.\n' % (v, common.slit(k)) for k, v in self.ids.items())
+
+
+IN = Interner()
+
+
+def slit(text):
+    return IN(text)
 
 
 def blit(b):
@@ -23,7 +48,7 @@ def qmk(fr):
 
 
 def strs(l):
-    return '[%s]' % '; '.join(slit(s) for s in l)
+    return '[%s]' % '; '.join(common.slit(s) for s in l)
 
 
 def tok_coq(j):
@@ -336,10 +361,13 @@ def coq_pp_case(res):
 PP_TYPE = ('list jitem * list (string * Z * bool) * list (list (string * Z * bool)) * list (string * Z * bool)')
 
 
-def stream_pp(run, rng, gr, n):
+def cases_pp(rng, gr, n):
+    return [{'fn': 'pp_block', 'css': c} for c in corpus('pp')] + [gen_block(rng, gr) for _ in range(n)]
+
+
+def stream_pp(run, gr, cases, outs):
     reg = gr.reg
-    cases = [{'fn': 'pp_block', 'css': c} for c in corpus('pp')] + [gen_block(rng, gr) for _ in range(n)]
-    outs = run_multi(cases)
+    IN.reset()
     coq, kept = [], []
     ndecl = 0
     crash_seen = set()
@@ -366,8 +394,8 @@ def stream_pp(run, rng, gr, n):
         coq.append(coq_pp_case(o))
         kept.append((c, o))
         ndecl += sum(1 for it in o['items'] if it[0] == 0)
-    pre = HDR + ('Definition NP := %s.\nDefinition PROP := %s.\nDefinition UNST := %s.\n'
-                 % (strs(reg['not_print']), strs(reg['proprietary']), strs(reg['unstable'])))
+    pre = HDR + IN.preamble() + ('Definition NP := %s.\nDefinition PROP := %s.\nDefinition UNST := %s.\n'
+                                 % (strs(reg['not_print']), strs(reg['proprietary']), strs(reg['unstable'])))
     try:
         masks = common.eval_cases('c07pp', pre, PP_TYPE, coq, 'pp_judge NP PROP UNST', per_file=max(60, len(coq) // 16 + 1))
     except RuntimeError as exc:
@@ -497,8 +525,7 @@ DISPATCH_TYPE = ('string * list tok * list ((string * list tok) * Z) * list (tok
                  '(nat * list (string * value Z))')
 
 
-def stream_dispatch(run, rng, gr, n):
-    reg = gr.reg
+def cases_dispatch(rng, gr, n):
     fixed = []
     for name in MODELLED:
         fixed += [{'fn': 'dispatch_case', 'name': name, 'value': v} for v in
@@ -508,9 +535,13 @@ def stream_dispatch(run, rng, gr, n):
                    'none', '1', '1 2', '1 2 3px', '3px 1 2', '1 3px 2', '0', '0 0', '0 0 0', '0px', 'auto', 'auto 2',
                    '2 auto', 'auto auto', '2 3', '10px 20px', '10px 2', '2 10px', '2.0', '1.5 2.5 content', '-1',
                    'content', '1 1 1 1']]
-    cases = ([{'fn': 'dispatch_case', **c} for c in corpus('dispatch')] + fixed +
-             [gen_dispatch(rng, gr) for _ in range(n)])
-    outs = run_multi(cases)
+    return ([{'fn': 'dispatch_case', **c} for c in corpus('dispatch')] + fixed +
+            [gen_dispatch(rng, gr) for _ in range(n)])
+
+
+def stream_dispatch(run, gr, cases, outs):
+    reg = gr.reg
+    IN.reset()
     coq, kept = [], []
     crash_seen = set()
     for c, (st, o) in zip(cases, outs):
@@ -535,7 +566,8 @@ def stream_dispatch(run, rng, gr, n):
         coq.append(coq_dispatch_case(o))
         kept.append((c, o))
     sup = set(reg['properties'])
-    pre = HDR + 'Definition KNOWN := %s.\nDefinition SUPPORTED := %s.\n' % (strs(reg['known']), strs(reg['properties']))
+    pre = HDR + IN.preamble() + 'Definition KNOWN := %s.\nDefinition SUPPORTED := %s.\n' % (
+        strs(reg['known']), strs(reg['properties']))
     try:
         masks = common.eval_cases('c07dp', pre, DISPATCH_TYPE, coq, 'dispatch_judge KNOWN SUPPORTED',
                                   per_file=max(60, len(coq) // 16 + 1))
@@ -579,7 +611,19 @@ def dec(fr):
     return sign + (s[:-k] + '.' + s[-k:] if k else s)
 
 
-def stream_units(run, rng, reg, n):
+def cases_units(rng, n):
+    cases = []
+    for u in ABS_UNITS:
+        for v in ['0', '1', '-1', '1/2', '254/100', '72', '6', '96', '1016/10']:
+            cases.append({'fn': 'length_case', 'value': v, 'unit': u})
+    while len(cases) < n:
+        cases.append({'fn': 'length_case', 'unit': rng.choice(ABS_UNITS),
+                      'value': str(Fraction(rng.randint(-3000, 3000), rng.choice([1, 1, 2, 4, 10, 100, 3, 7])))})
+    return cases
+
+
+def stream_units(run, reg, cases, outs):
+    IN.reset()
     # the table, literal by literal
     t = reg['lengths_source']
     if t is None:
@@ -587,7 +631,7 @@ def stream_units(run, rng, reg, n):
         return
     try:
         m = common.eval_cases('c07tab', HDR, 'list (string * Q)',
-                              ['[%s]' % '; '.join('(%s, %s)' % (slit(k), qmk(v)) for k, v in t)], 'table_judge')
+                              ['[%s]' % '; '.join('(%s, %s)' % (common.slit(k), qmk(v)) for k, v in t)], 'table_judge')
         run.oblige('tie:LENGTHS_TO_PIXELS(source literals as exact rationals = model table)', m == [0],
                    'source table: %s' % (t,))
     except RuntimeError as exc:
@@ -597,20 +641,12 @@ def stream_units(run, rng, reg, n):
            abs(Fraction(float(rt[k])) - Fraction(v)) > abs(Fraction(v)) / 2 ** 50]
     run.oblige('tie:LENGTHS_TO_PIXELS(runtime floats within 2^-50 of the literals\' rationals)', not bad and len(rt) == len(t),
                str(bad))
-    cases = []
-    for u in ABS_UNITS:
-        for v in ['0', '1', '-1', '1/2', '254/100', '72', '6', '96', '1016/10']:
-            cases.append({'fn': 'length_case', 'value': v, 'unit': u})
-    while len(cases) < n:
-        cases.append({'fn': 'length_case', 'unit': rng.choice(ABS_UNITS),
-                      'value': str(Fraction(rng.randint(-3000, 3000), rng.choice([1, 1, 2, 4, 10, 100, 3, 7])))})
-    outs = run_multi(cases)
     coq, kept = [], []
     for c, (st, o) in zip(cases, outs):
         if st != 'ok':
             run.fail('computed_values.length raised', {'stream': 'units', 'case': c, 'outcome': o}, signature='crash:length')
             continue
-        coq.append('(%s, %s, %s)' % (qmk(c['value']), slit(c['unit']), qmk(o)))
+        coq.append('(%s, %s, %s)' % (qmk(c['value']), common.slit(c['unit']), qmk(o)))
         kept.append((c, o))
     try:
         masks = common.eval_cases('c07len', HDR, 'Q * string * Q', coq, 'length_judge')
@@ -682,12 +718,12 @@ def gen_var_case(rng, known_open):
     return {'fn': 'var_case', 'env': env, 'value': gen_var_value(rng, names + ['--u'], 0, allow_plain_func=plain)}
 
 
-def stream_var(run, rng, n):
+def cases_var(run, rng, n):
     known_open = {k.get('signature') for k in run.known}
     known_tags = set()
-    if 'crash:RecursionError:__init__.py:resolve_var' in known_open or 'var:cycle' in known_open:
+    if 'var:cycle' in known_open:
         known_tags.add('var-cycle')
-    if 'crash:TypeError:__init__.py:resolve_var' in known_open or 'var:plain-function' in known_open:
+    if 'var:plain-function' in known_open:
         known_tags.add('var-plain-function')
     fixed = [{'fn': 'var_case', 'env': e, 'value': v} for e, v in [
         ({'--a': '5px'}, 'var(--a)'), ({}, 'var(--a)'), ({}, 'var(--a, 7px)'), ({'--a': '5px 6px'}, 'var(--a) 1px'),
@@ -695,8 +731,11 @@ def stream_var(run, rng, n):
         ({'--a': '5px'}, 'calc(var(--a) + 1px)'), ({'--a': '5px'}, 'f(g(var(--a)))'), ({'--a': ''}, 'var(--a, 7px)'),
         ({'--a-b': '1px', '--a_b': '2px'}, 'var(--a-b)'), ({}, 'var(--u, a, b)'), ({'--a': 'x'}, 'f(var(--u))'),
         ({'--a': '1px'}, 'var(--a) var(--a)'), ({'--A': '1px'}, 'var(--a, 2px)'), ({'--a': 'var(--u)'}, 'f(var(--a))')]]
-    cases = [{'fn': 'var_case', **c} for c in corpus('var')] + fixed + [gen_var_case(rng, known_tags) for _ in range(n)]
-    outs = run_multi(cases)
+    return [{'fn': 'var_case', **c} for c in corpus('var')] + fixed + [gen_var_case(rng, known_tags) for _ in range(n)]
+
+
+def stream_var(run, cases, outs):
+    IN.reset()
     coq, kept = [], []
     for c, (st, o) in zip(cases, outs):
         if st != 'ok':
@@ -711,8 +750,8 @@ def stream_var(run, rng, n):
         coq.append('(%s, %s, (%s, %s))' % (env, toks_coq(o['tokens']), nlit(o['code']), toks_coq(o['out'])))
         kept.append((c, o))
     try:
-        masks = common.eval_cases('c07var', HDR, 'list (string * list tok) * list tok * (nat * list tok)', coq, 'var_judge',
-                                  per_file=max(60, len(coq) // 16 + 1))
+        masks = common.eval_cases('c07var', HDR + IN.preamble(), 'list (string * list tok) * list tok * (nat * list tok)',
+                                  coq, 'var_judge', per_file=max(60, len(coq) // 16 + 1))
     except RuntimeError as exc:
         run.oblige('corr:var-direct', False, str(exc))
         return
@@ -757,10 +796,20 @@ def check(run):
                     rule='for each of the %d names of PROPERTIES and EXPANDERS: which of ~1300 candidate values (generic '
                          'single tokens, idents quoted in its validator, the strings of tests/css/test_validation.py and '
                          'test_expanders.py) the implementation accepts' % len(gr.names))
-    stream_pp(run, rng, gr, 12000 if thorough else 2600)
-    stream_dispatch(run, rng, gr, 20000 if thorough else 4000)
-    stream_units(run, rng, reg, 2000 if thorough else 300)
-    stream_var(run, rng, 8000 if thorough else 1500)
+    streams = [('pp', cases_pp(rng, gr, 12000 if thorough else 2600)),
+               ('dispatch', cases_dispatch(rng, gr, 20000 if thorough else 4000)),
+               ('units', cases_units(rng, 2000 if thorough else 300)),
+               ('var', cases_var(run, rng, 8000 if thorough else 1500))]
+    allc = [c for _, cs in streams for c in cs]
+    outs = run_multi(allc, limit=60)
+    res, k = {}, 0
+    for name, cs in streams:
+        res[name] = (cs, outs[k:k + len(cs)])
+        k += len(cs)
+    stream_pp(run, gr, *res['pp'])
+    stream_dispatch(run, gr, *res['dispatch'])
+    stream_units(run, reg, *res['units'])
+    stream_var(run, *res['var'])
 
 
 def replay(data):
